@@ -225,7 +225,7 @@ def all_cases(tier, seed):
         for special in ('redefine-same-list', 'redefine-global-target',
                         'env-two-token-flags', 'env-iquote-same-dir',
                         'pch-in-shared-library', 'pch-in-dual-library',
-                        'libdir-repeated'):
+                        'libdir-repeated', 'toolchain-list-options'):
             cases.append({'compiler': cname, 'lang': lang, 'cenv': cenv,
                           'placement': 'target', 'envflags': False,
                           'opts': [], 'special': special})
@@ -417,10 +417,17 @@ def check_case(rec, case):
             extra['CPPFLAGS'] = "-isystem '{}' -D FROM_CPP=6".format(
                 os.path.join(src, 'sysinc'))
         env = sandbox.base_env(os.path.join(tmp, 'home'), extra=extra)
-        r = sandbox.configure(
-            src, bld, env, backend='make',
-            extra=(['--enable-shared', '--enable-static']
-                   if case.get('special') == 'pch-in-dual-library' else []))
+        cextra = (['--enable-shared', '--enable-static']
+                  if case.get('special') == 'pch-in-dual-library' else [])
+        if case.get('special') == 'toolchain-list-options':
+            # options placed through a toolchain file, as a list whose
+            # elements contain blanks and quotes
+            tcf = os.path.join(tmp, 'toolchain.bfg')
+            sandbox.write_file(
+                tcf, "compile_options(['-DMYSTR=\"hi there\"', '-DMYDEF=42', "
+                "'-DFROM_ENV=5'], {!r})\n".format(lang))
+            cextra.append('--toolchain=' + tcf)
+        r = sandbox.configure(src, bld, env, backend='make', extra=cextra)
         if r.rc != 0:
             rec.fail('option/configure-failed/' + key, 'configure failed: ' +
                      r.err.strip()[-600:], jcase)
@@ -488,6 +495,14 @@ def check_case(rec, case):
             rec.fail('option/no-effect/' + sp, '{}: include_dir() of a '
                      'directory that CPPFLAGS names with -iquote: INC={!r}'
                      .format(case['compiler'], out.get('INC')), jcase)
+        if sp == 'toolchain-list-options' and (
+                out.get('MYSTR') != 'hi there' or out.get('MYDEF') != '42' or
+                out.get('FROM_ENV') != '5'):
+            rec.fail('option/no-effect/' + sp, '{}: compile_options([...]) in '
+                     'a toolchain file: program prints {}; build output: {}'
+                     .format(case['compiler'], {k: out.get(k) for k in (
+                         'MYSTR', 'MYDEF', 'FROM_ENV')}, text.strip()[-300:]),
+                     jcase)
         if sp == 'libdir-repeated' and out.get('EXT') != '99':
             rec.fail('option/no-effect/' + sp, '{}: -lext must come from the '
                      'directory given first (99), got EXT={!r}; build output: '
